@@ -214,6 +214,9 @@ pub fn run_exchange(rq: &RqCfg, payload_bytes: &[u8], conn: &mut Conn, s: &Sched
                     wire.extend(&out[..p.min(size)]);
                     off += c;
                 }
+                // a buffer too small for the smallest chunk may be answered with an overflow error instead of (0, 0),
+                // like a head line that does not fit: the caller comes back with its next buffer
+                Err(ureq_proto::Error::OutputOverflow) if chunked && size < 6 => {}
                 Err(_) => return fail(o, "body write failed", conn),
             }
             if q(&mut qrng) {
